@@ -414,6 +414,21 @@ func (w *world) step() {
 					}
 				}
 			case 1:
+				// preferably a name that can expire (undeclared, no handle yet): the snapshot may already
+				// have marked it, and the handle obtained now must keep it alive
+				var cands []string
+				for _, c := range pool {
+					declared := false
+					for _, d := range w.cfg.names {
+						declared = declared || d == c
+					}
+					if _, has := w.hands[c]; !has && !declared {
+						cands = append(cands, c)
+					}
+				}
+				if len(cands) > 0 && r.Intn(4) != 0 {
+					n = pick(r, cands)
+				}
 				mid = fmt.Sprintf("%d/handle/%s", k-1, hx(n))
 				hook = func(_, _ string, nth int) {
 					if nth == k {
